@@ -173,6 +173,15 @@ GhostBegin(G, S, a, op) ==
                                 val |-> e.val, dl |-> e.dl, src |-> e.src]])]
   ELSE G
 
+\* ids that are charged although no entry holds them (nothing of the kind exists while the worker is at its space check:
+\* the worker itself is the only thread that charges before it stores or removes before it releases)
+LeakedIds(S) == DOMAIN S.kw \ {S.store[k].id : k \in DOMAIN S.store}
+\* the worker finds no room for its put, but would find it if only held keys were charged
+PhantomPressure(S, a) ==
+  /\ a = "worker" /\ S.pc[a] = "A_Space" /\ LeakedIds(S) # {}
+  /\ S.lc[a].w <= S.cfg.max
+  /\ S.cfg.max - (S.used - SumSet([id \in LeakedIds(S) |-> S.kw[id].w], LeakedIds(S))) >= S.lc[a].w
+
 GhostNext(G, S, a, site, inp, S2, o) ==
   LET L == S.lc[a]
       G0 == [G EXCEPT !.lookups = IF site = "C_Get" THEN @ + 1 ELSE @,
@@ -185,7 +194,8 @@ GhostNext(G, S, a, site, inp, S2, o) ==
                               ELSE IF site = "A_Space" THEN {} ELSE @,
                       !.shutSeen = @ \/ S2.shut,
                       !.shutDone = @ \/ (IsCaller(a) /\ o.next = "C_Idle" /\ o.op.op = "shutdown"),
-                      !.pressure = @ \/ o.next = "A_Sample" \/ site = "A_Sample",
+                      \* memory pressure: an eviction was needed although only held keys are charged (see J_C03p)
+                      !.pressure = @ \/ ((o.next = "A_Sample" \/ site = "A_Sample") /\ ~PhantomPressure(S, a)),
                       !.applied = IF site = "R_Apply" THEN @ + Len(L.batch) ELSE @,
                       !.dead = IF o.next = "DEAD" THEN @ \cup {a} ELSE @]
       \* operation begin
@@ -242,7 +252,10 @@ GhostNext(G, S, a, site, inp, S2, o) ==
             ELSE G8
       G10 == IF site = "K_DelUsed"
              THEN \* the released id: the one that is charged nowhere any more and whose weight left the total in this step
-                  [G9 EXCEPT !.credit = Restrict(@, {id \in DOMAIN @ : id \in DOMAIN S2.kw \/ (id # L.vic.id /\ S2.used = S.used)})]
+                  \* (another thread may be between taking a credited id out of key_weights and releasing its weight: that id stays)
+                  LET rel == {o.ev[i].f[1] : i \in {j \in DOMAIN o.ev : o.ev[j].e = "released"}} IN
+                  [G9 EXCEPT !.credit = Restrict(@, {id \in DOMAIN @ : id \in DOMAIN S2.kw
+                                                      \/ (IF rel # {} THEN id \notin rel ELSE id # L.vic.id /\ S2.used = S.used)})]
              ELSE IF site = "C_ShutClearPolicy" THEN [G9 EXCEPT !.credit = EmptyFn] ELSE G9
       \* D13: the worker registers an expiry in the index that the entry no longer has
       \* D13 / D14: an index update (the worker's after its store write, or a caller's after its in-place update) that no longer
@@ -280,7 +293,7 @@ GhostNext(G, S, a, site, inp, S2, o) ==
       G13 == IF site = "K_DelUsed" /\ L.mode # "del" /\ Present(S, L.key)
                 /\ LET e == S.store[L.key] IN
                      (e.id # L.vic.id /\ Get(G.evw, a, 0) = L.vic.id)
-                     \/ (a = "sweeper" /\ (e.exp = NoExp \/ e.exp > L.t) /\ (UpsertInFlightOn(S, e.id) \/ e.id \in DOMAIN G.stale))
+                     \/ (a = "sweeper" /\ (e.exp = NoExp \/ e.exp > Min2(L.t, S.now)) /\ (UpsertInFlightOn(S, e.id) \/ e.id \in DOMAIN G.stale))
              THEN [G12c EXCEPT !.taintK = With(@, L.key,
                         LET e == S.store[L.key] IN
                         IF e.id # L.vic.id THEN "D11" ELSE IF UpsertInFlightOn(S, e.id) THEN "D12" ELSE G.stale[e.id])] ELSE G12c
@@ -342,6 +355,14 @@ J_C02(S, a, site, inp, S2, o, G, G2) ==
 
 -----------------------------------------------------------------------------
 (* C03: without memory pressure an accepted key stays readable (sequential use of the key) *)
+
+J_C03p(S, a, site, inp, S2, o, G, G2) ==
+  IF site = "A_Space" /\ o.next = "A_Sample" /\ PhantomPressure(S, a) /\ Sync(G, a, site, o)
+  THEN IF \E id \in LeakedIds(S) : S.kw[id].key \in DOMAIN G.taintK
+       THEN <<V("C03", "known", G.taintK[S.kw[CHOOSE id \in LeakedIds(S) : S.kw[id].key \in DOMAIN G.taintK].key],
+                "eviction under the weight of a key id leaked by a recorded store/index race")>>
+       ELSE <<V("C03", "violation", "", "keys are evicted without memory pressure: the put fits once the weight of key ids that no entry holds any more is discounted")>>
+  ELSE <<>>
 
 ReadVals(o) == IF o.op.op = "get" THEN <<o.ret.v>> ELSE o.ret.vs
 
@@ -414,6 +435,10 @@ J_C06(S, a, site, inp, S2, o, G, G2) ==
         THEN <<V("C06", "violation", "", "a put that fits in the free space was not accepted directly")>> ELSE <<>>)
     \o (IF site = "A_Space" /\ L.w <= S.cfg.max /\ S.cfg.max - S.used < L.w /\ o.next = "K_AddKw"
         THEN <<V("C06", "violation", "", "a put that does not fit was accepted without making space")>> ELSE <<>>)
+    \* a put that needs space is refused only after a victim hotter than it was met or the candidates ran out
+    \o (IF site = "A_Sample" /\ o.next = "W_Recv" /\ ~(\E i \in DOMAIN o.ev : o.ev[i].e = "victim")
+           /\ inp.sample # {} /\ \E x \in inp.sample : x.est <= inp.inc
+        THEN <<V("C06", "violation", "", "the put was refused without an eviction although a sampled key is not hotter than it")>> ELSE <<>>)
     \* victim selection and the stop rule, from the logged decision
     \o (IF \E i \in DOMAIN o.ev : o.ev[i].e = "victim"
         THEN LET vi == CHOOSE i \in DOMAIN o.ev : o.ev[i].e = "victim" /\ \A j \in DOMAIN o.ev : o.ev[j].e = "victim" => i >= j
@@ -570,7 +595,8 @@ J_C10(S, a, site, inp, S2, o, G, G2) ==
                    <<V("C10", "known", "D11", "the sweep of an old key id removed the key's newer incarnation, stored inside the eviction window")>>
               ELSE <<V("C10", "violation", "", "the sweep of an old key id removed a newer incarnation of the key (the old id was still charged after the key had been put again)")>>
                    \o More("violation", "")
-         ELSE IF e.exp = NoExp \/ e.exp > L.t
+         \* (the deadline is judged by the configured clock, S.now, not only by the time the sweeper says it read)
+         ELSE IF e.exp = NoExp \/ e.exp > Min2(L.t, S.now)
          THEN IF UpsertInFlightOn(S, e.id)
               THEN <<V("C10", "known", "D12", "sweep between an upsert's store update and its index update")>> \o More("known", "D12")
               ELSE IF e.id \in DOMAIN G.stale
@@ -751,6 +777,7 @@ Judge(S, a, site, inp, S2, o, G, G2) ==
      J_C01(S, a, site, inp, S2, o, G, G2)
   \o J_C02(S, a, site, inp, S2, o, G, G2)
   \o J_C03(S, a, site, inp, S2, o, G, G2)
+  \o J_C03p(S, a, site, inp, S2, o, G, G2)
   \o J_C04(S, a, site, inp, S2, o, G, G2)
   \o J_C05(S, a, site, inp, S2, o, G, G2)
   \o J_C06(S, a, site, inp, S2, o, G, G2)
